@@ -49,8 +49,8 @@ theorem C16_monotone (E : Env) (f : Nat) (e : Expr) (s s' : PState) (v : Val) (o
   exact this.stk.cnt
 
 
-theorem read_memo_ok (E : Env) : MemoOK (read E (initState E)) :=
-  (initState_memo E).congr (by simp)
+theorem read_memo_ok (E : Env) : MemoOK (startState E) :=
+  (initState_memo E).congr (by show (read E (initState E)).memo = _; simp)
 where initState_memo (E : Env) : MemoOK (initState E) := fun _ h => by simp [initState] at h
 
 /-- **C16 (d)** Termination: with `MaxExpressions(n)` and `Memoize(false)` every parse — of any
@@ -70,11 +70,11 @@ theorem C16_terminates (E : Env) (n : Nat) (hn : E.opts.maxExpr = some n)
       have hrec : RecOK E (parseExpr E fuel) n 0 :=
         ⟨parseExpr_frame E fuel, fun e s v ok s' hm h => parseExpr_strict E fuel e s s' v ok hm h,
          fun e s hm _ hb => parseExpr_term E n hn hmz fuel e s hm (by omega) hb⟩
-      have hcnt : (read E (initState E)).exprCnt = 0 := by simp [initState]
-      have := ruleWrap_term hn hmz hrec fuel r (read E (initState E)) (read_memo_ok E)
+      have hcnt : (startState E).exprCnt = 0 := by simp [startState, initState]
+      have := ruleWrap_term hn hmz hrec fuel r (startState E) (read_memo_ok E)
         (Nat.zero_le _) (by omega) (by omega)
       revert this h
-      generalize parseRuleWrap E (parseExpr E fuel) fuel r (read E (initState E)) = o
+      generalize parseRuleWrap E (parseExpr E fuel) fuel r (startState E) = o
       cases o with
       | oof => intro _ h; exact absurd rfl h
       | panic p s => simp only [finish]; split <;> simp
